@@ -78,7 +78,7 @@ func runHarness(prog *Program, spec HarnessSpec, tier int, seed int64, workers i
 	}
 	if to.TimeoutS == 0 {
 		// default time budgets per harness; exhausting one is reported as INCONCLUSIVE
-		to.TimeoutS = 240
+		to.TimeoutS = 420
 		if tier == 1 {
 			to.TimeoutS = 900
 		}
